@@ -237,6 +237,20 @@ def witness_api(kind):
         svc.rpc("ListBooks", lreq.fqn, lresp.fqn, sigs=[",".join(["parent"] + names)], http=("get", "/v1/{parent=shelves/*}/books"))
         svc.rpc("GetBook", rq.fqn, book.fqn, sigs=[",".join(["name"] + names)], http=("get", "/v1/{name=books/*}"))
         return apigen.request([main], parameter="transport=grpc")
+    if kind == "required_after_optional":
+        # signatures that name an optional field BEFORE a REQUIRED one: the parameters are offered in declared order all the same
+        main = apigen.File("google/example/library/v1/library.proto", "google.example.library.v1", deps=list(apigen.STD_DEPS))
+        widget = main.message("Widget")
+        widget.field("name", 1, "string", required=True).field("size", 2, "int32")
+        rq = main.message("CreateWidgetRequest")
+        rq.field("parent", 1, "string", required=True).field("widget", 2, widget.fqn, required=True).field("filter", 3, "string")
+        rq.field("tags", 4, "string", repeated=True).field("widget_id", 5, "string", required=True).field("note", 6, "string", optional=True)
+        svc = main.service("Library", host="library.example.com")
+        svc.rpc("CreateWidget", rq.fqn, widget.fqn, sigs=["filter,parent,widget,tags"])
+        svc.rpc("MakeWidget", rq.fqn, widget.fqn, sigs=["note", "tags,widget_id", "parent"])
+        svc.rpc("WatchWidget", rq.fqn, widget.fqn, ss=True, sigs=["filter, widget.size ,widget.name,parent"])
+        svc.rpc("PlainWidget", rq.fqn, widget.fqn, sigs=["parent,widget,widget_id", "filter"])
+        return apigen.request([main], parameter="transport=grpc")
     if kind == "prefix_signatures":
         main = apigen.File("google/example/library/v1/library.proto", "google.example.library.v1", deps=list(apigen.STD_DEPS))
         book = main.message("Book")
@@ -339,7 +353,7 @@ def witness_api(kind):
 # corpus/C05/<kind>.json holds each of these (written by write_corpus); the first four are the witnesses of defects that were
 # repaired in /repo (353b7c7, 14fc9e4, d43e852, 318bb4b; paged_pb2_request: 9678930): they stay so that a regression is reported
 WITNESSES = ["cross_two_repeated", "cross_dotted", "reserved_in_pb2", "reserved_segment", "presence", "pb2_reserved_leaf",
-             "sub_reserved_leaf", "module_named_param", "module_named_param_sub", "paged_reuse", "paged_pb2_request", "prefix_signatures", "module_named_param_lro", "param_named_gapic_v1", "control_name", "duplicate_param", "empty_container_dotted", "falsy_request", "keyword_param_pb2"]
+             "sub_reserved_leaf", "module_named_param", "module_named_param_sub", "paged_reuse", "paged_pb2_request", "prefix_signatures", "module_named_param_lro", "param_named_gapic_v1", "required_after_optional", "control_name", "duplicate_param", "empty_container_dotted", "falsy_request", "keyword_param_pb2"]
 # a witness whose class is not yet in findings/known_findings.json is reported in scratch/findings and joins the run once it is
 PENDING = {"pb2_nonprimitive_leaf": "flatten.nonprimitive_leaf_in_pb2_submessage"}
 CORPUS = os.path.join(env.VERIF, "corpus", "C05")
@@ -852,6 +866,12 @@ class ApiRun:
             gen.rm(root)
         self.judge(table, exps, out, meta, extracted)
 
+    @staticmethod
+    def optional_before_required(exp):
+        from google.api import field_behavior_pb2
+        req = [field_behavior_pb2.REQUIRED in f.options.Extensions[field_behavior_pb2.field_behavior] for _, _, f in exp]
+        return any(not a and any(req[i + 1:]) for i, a in enumerate(req))
+
     def owner_pkg(self, rq, path):
         cur = rq
         for sg in path.split(".")[:-1]:
@@ -985,6 +1005,7 @@ class ApiRun:
                 ctx.case({"api": self.h, "method": m.name, "variant": variant, "subset": case["subset"], "expected": case["expected_request_b64"]},
                          nontrivial=bool(keys),
                          feature=[f"params={min(len(keys), 5)}", f"subset={len(sub_)}", variant, "cross-package" if cross else "same-package"]
+                         + (["signature-names-optional-before-REQUIRED"] if self.optional_before_required(exp) else [])
                          + (["primitive-param-named-like-a-proto-module"] if any(
                              params[i] in self.module_names and exp[i][2].type not in (F.TYPE_MESSAGE, F.TYPE_ENUM) for i in sub_) else [])
                          + (["reserved-intermediate-segment"] if any(x in self.reserved for i in sub_ for x in keys[i].split(".")[:-1]) else [])
